@@ -24,6 +24,11 @@ const (
 	maxClockSkew = 900 * time.Second
 )
 
+type cachedRevocationStatus struct {
+	status    core.RevocationStatus
+	expiresAt time.Time
+}
+
 type OCSPRevocationChecker struct {
 	ocspConfig *config.OCSPConfig
 	logger     *zap.Logger
@@ -31,11 +36,12 @@ type OCSPRevocationChecker struct {
 }
 
 func (c *OCSPRevocationChecker) IsRevoked(clientCertificate *x509.Certificate, verifiedChains [][]*x509.Certificate) (*core.RevocationStatus, error) {
-	subjectRDNSequence, err := asn1parser.ParseSubjectRDNSequence(clientCertificate)
+	//a certificate is identified by its issuer and serial number
+	issuerRDNSequence, err := asn1parser.ParseIssuerRDNSequence(clientCertificate)
 	if err != nil {
 		return nil, err
 	}
-	cacheKey := subjectRDNSequence.String() + "_" + clientCertificate.SerialNumber.String()
+	cacheKey := issuerRDNSequence.String() + "_" + clientCertificate.SerialNumber.String()
 	cache, err := c.tryGetResponseFromCache(cacheKey)
 	if err == nil {
 		return cache, nil
@@ -81,7 +87,10 @@ func (c *OCSPRevocationChecker) IsRevoked(clientCertificate *x509.Certificate, v
 			}
 			evictionTime := c.calculateEvictionTime(ocspResponse)
 			if evictionTime > 0 {
-				c.cache.Add(cacheKey, evictionTime, revocationStatus)
+				c.cache.Add(cacheKey, evictionTime, cachedRevocationStatus{
+					status:    revocationStatus,
+					expiresAt: time.Now().Add(evictionTime),
+				})
 			}
 			return &revocationStatus, nil
 		}
@@ -189,8 +198,13 @@ func (c *OCSPRevocationChecker) tryGetResponseFromCache(cacheKey string) (*core.
 	// Let's retrieve the item from the cache.
 	res, err := c.cache.Value(cacheKey)
 	if err == nil {
-		response := res.Data().(core.RevocationStatus)
-		return &response, nil
+		cached := res.Data().(cachedRevocationStatus)
+		//the cache table renews the lifespan of an item on every access, so enforce the absolute end of life here
+		if time.Now().After(cached.expiresAt) {
+			_, _ = c.cache.Delete(cacheKey)
+			return nil, errors.New("cached ocsp response is expired")
+		}
+		return &cached.status, nil
 	} else {
 		return nil, err
 	}
